@@ -2,7 +2,7 @@
 
 import pprint
 
-from .cmd_base import DoitCmdBase
+from .cmd_base import DoitCmdBase, merge_calc_dep
 from .exceptions import InvalidCommand
 
 
@@ -60,6 +60,7 @@ class Info(DoitCmdBase):
         # print reason task is not up-to-date
         retcode = 0
         if not hide_status:
+            merge_calc_dep(self.dep_manager, tasks, task)
             status = self.dep_manager.get_status(task, tasks, get_log=True)
             self.outstream.write('\n{:11s}: {}\n'
                                  .format('status', status.status))
